@@ -303,7 +303,7 @@ class C02(CtxCheck):
             elif m.state == "open":
                 if not any(c.parent is m and c.state in ("open", "closing") for c in u.models):
                     ops.append(("leave", m.idx, "clean"))
-                for k in ("Ad", "Bd", "Ax", "ABd"):
+                for k in ("Ad", "Bd", "Ax", "ABd", "Ld"):
                     types, name = KEYS[k]
                     if all((t, name) not in m.res for t in types):
                         ops.append(("op", m.idx, ("add", k, False, f"v:c{m.idx}:{k}", "s" if k == "Bd" else "m")))
@@ -318,6 +318,9 @@ class C02(CtxCheck):
                             if f["async"] and api in ("nowait", "s_nowait", "inj_sync"):
                                 continue
                             ops.append(("op", m.idx, ("get", api, tname, name, False)))
+                            if api in ("inj_sync", "inj_async", "nowait") and not f["async"]:
+                                # an optional lookup triggers the generation just the same
+                                ops.append(("op", m.idx, ("get", api, tname, name, True)))
         return ops
 
 
